@@ -1,7 +1,7 @@
 (** C03 — Recursive methods follow their documented recurrences.
     Only statements and [exact]; proofs in Proofs/Recursive.v (NumR). *)
 From Yata Require Import Base.Prelude Base.Num Base.NumR Core.Window Core.Candle
-  Spec.Hist Spec.MethodDefs Methods.Basic Proofs.MethodsCommon Proofs.Recursive.
+  Spec.Hist Spec.MethodDefs Methods.Basic Proofs.MethodsCommon Proofs.Recursive Proofs.Tsi.
 From Yata Require Import Base.NumF64.
 From Coq Require Import Reals Floats.
 Open Scope Z_scope.
@@ -47,6 +47,16 @@ Theorem C03_integral_cumulative v xs x : 2 <= pmax ->
   exists s0, integral_new (N := NumR) 0 v = Ok s0 /\
     snd (integral_next (steps integral_next s0 xs) x) = cumsum (rev (xs ++ [x])).
 Proof. exact (integral0_correct v xs x). Qed.
+(** TSI: EMA_short(EMA_long(momentum)) / EMA_short(EMA_long(|momentum|)), 0 when the denominator is not positive *)
+Theorem C03_tsi short long (v : R) xs x : 1 <= short <= pmax - 1 -> 1 <= long <= pmax - 1 ->
+  exists s0, tsi_new short long v = Ok s0 /\
+    snd (tsi_next (steps tsi_next s0 xs) x) = tsi_def short long v (rev (xs ++ [x])).
+Proof. exact (tsi_correct short long v xs x). Qed.
+(** windowless ADI: running total of clv * volume *)
+Theorem C03_adi_cumulative (c0 : candle (N := NumR)) cs c : 2 <= pmax ->
+  exists s0, adi_new 0 c0 = Ok s0 /\
+    snd (adi_next (steps adi_next s0 cs) c) = cumsum (map clvv (rev (cs ++ [c]))).
+Proof. exact (adi0_correct c0 cs c). Qed.
 End C03.
 
 (** Known finding KF-C03-vidya-residue (binary64, by kernel computation): after
